@@ -1,12 +1,22 @@
 from __future__ import annotations
 
 import itertools
+import math
 import weakref
 
 import claripy
 from claripy import backends, errors, false
 from claripy.ast import Base
 from claripy.errors import UnsatError
+
+
+def _differs(a, v):
+    """
+    The constraint that excludes the already known value `v` of `a` (NaN != NaN holds, so a NaN is excluded as such).
+    """
+    if isinstance(v, float) and math.isnan(v):
+        return claripy.Not(claripy.fpIsNaN(a))
+    return a != v
 
 
 class ModelCache:
@@ -329,7 +339,7 @@ class ModelCacheMixin:
         # TODO: faster to concat?
         if len(results) != 0:
             constraints = (
-                claripy.And(*[claripy.Or(*[a != v for a, v in zip(asts, r, strict=False)]) for r in results]),
+                claripy.And(*[claripy.Or(*[_differs(a, v) for a, v in zip(asts, r, strict=False)]) for r in results]),
                 *tuple(extra_constraints),
             )
         else:
